@@ -322,6 +322,13 @@ pub fn mutation_strategy() -> BoxedStrategy<Mutation> {
             Mutation::InsertLine(i, format!("{}{}{}", a as char, b as char, if text { "  some text." } else { "" }))
         }),
         2 => (any::<usize>(), proptest::sample::select(vec![">", ">x y", "//", "VV  x", "XX", "P0", "PO  A", "P0  A  C  G  T", "01  1  2  3  4", "A:\t0.1", "A [ 1 2 ]", "RN  [1]", "RN  [1]; x.", "DT  01.02.2003 (created); x.", "RX  PUBMED: 1.", "CC", ""])).prop_map(|(i, t)| Mutation::InsertLine(i, t.to_string())),
+        // a TRANSFAC column header with any number of symbols in any order, repeats included (more columns than the
+        // alphabet has symbols, too)
+        2 => (any::<usize>(), proptest::sample::select(vec!["P0", "PO"]), proptest::collection::vec(proptest::sample::select("ACGTNDEFHIKLMPQRSVWYX".chars().collect::<Vec<char>>()), 1..=30), any::<bool>())
+            .prop_map(|(i, tag, syms, dna)| {
+                let letters: Vec<String> = syms.iter().map(|c| if dna { "ACGTN".chars().nth((*c as usize) % 5).unwrap().to_string() } else { c.to_string() }).collect();
+                Mutation::InsertLine(i, format!("{}  {}", tag, letters.join("  ")))
+            }),
         2 => Just(Mutation::NoFinalNewline),
         2 => (any::<usize>(), any::<bool>()).prop_map(|(i, l)| Mutation::InvalidUtf8(i, l)),
         1 => proptest::collection::vec(any::<u8>(), 0..200).prop_map(Mutation::Arbitrary),
@@ -354,7 +361,7 @@ impl Sub for Structured {
         "structured-mutations"
     }
     fn rule(&self) -> &'static str {
-        "a valid generated file (C14's writers, 1..6 records) or one of the repository's small test files, with 1..3 mutations (prefix, byte substitution / deletion / insertion, line duplication / removal / swap, one or two lines repeated 2..60 or 1000..30000 times, matrix rows renumbered from values around 2^31 / 2^32 / 2^64, ragged or longer row, header without matrix, an inserted line (any two-letter field code, or a header / terminator / matrix-like line of one of the formats in an odd place), missing final newline, invalid UTF-8, a number replaced by a decimal of 0..120 fractional digits, arbitrary bytes, empty, 1..70 KiB / 1..1.07 MiB / 2..2.05 MiB of separator-free filler inserted somewhere), read by the reader of its own format (or, 1 in 5, another format's) under 2 generated chunkings; Reader::new and every next() must return - also the three further next() calls made after the first Err - (a panic fails; so does a call that burns 10 CPU seconds without returning) and a consumer stopping at the first Err / None must stop within len+2 calls; sweep = EVERY prefix of the repository's 8 small files and of a generated file per format, under chunk size 1 and a cursor; non-trivial = non-empty input on which the reader does not simply succeed as on the unmutated file"
+        "a valid generated file (C14's writers, 1..6 records) or one of the repository's small test files, with 1..3 mutations (prefix, byte substitution / deletion / insertion, line duplication / removal / swap, one or two lines repeated 2..60 or 1000..30000 times, matrix rows renumbered from values around 2^31 / 2^32 / 2^64, ragged or longer row, header without matrix, an inserted line (any two-letter field code, a TRANSFAC column header of 1..30 symbols with repeats, or a header / terminator / matrix-like line of one of the formats in an odd place), missing final newline, invalid UTF-8, a number replaced by a decimal of 0..120 fractional digits, arbitrary bytes, empty, 1..70 KiB / 1..1.07 MiB / 2..2.05 MiB of separator-free filler inserted somewhere), read by the reader of its own format (or, 1 in 5, another format's) under 2 generated chunkings; Reader::new and every next() must return - also the three further next() calls made after the first Err - (a panic fails; so does a call that burns 10 CPU seconds without returning) and a consumer stopping at the first Err / None must stop within len+2 calls; sweep = EVERY prefix of the repository's 8 small files and of a generated file per format, under chunk size 1 and a cursor; non-trivial = non-empty input on which the reader does not simply succeed as on the unmutated file"
     }
     fn cases(&self, tier: Tier) -> u64 {
         tier.pick(100_000, 3_000_000)
